@@ -4,17 +4,11 @@ check(s) that are recorded as detecting it, and print one line per change. A cha
 of those checks exits 1. Never run this while another check is running (it patches /repo and reverts it)."""
 import glob, json, os, re, subprocess, sys
 pat = sys.argv[1] if len(sys.argv) > 1 else ""
-R3 = {  # round 3 (kept under /tmp/wt3/keep until confirmed): detecting checks
- "C01/a": "C01 C13", "C01/b": "C01", "C02/a": "C02", "C02/b": "C02", "C03/a": "C03", "C03/b": "C14", "C04/a": "C04", "C04/b": "C04",
- "C05/a": "C05", "C05/b": "C11", "C06/a": "C06", "C06/b": "C06", "C07/a": "C07", "C07/b": "C07", "C08/a": "C03", "C08/b": "C05",
- "C09/a": "C09", "C09/b": "C09", "C10/a": "C10", "C10/b": "C10", "C11/a": "C11", "C11/b": "C11", "C12/a": "C12", "C12/b": "C05",
- "C13/a": "C13 C08", "C13/b": "C13", "C14/a": "C14", "C14/b": "C14", "C15/a": "C15", "C15/b": "C15", "C16/a": "C16", "C16/b": "C15",
- "C17/a": "C17", "C17/b": "C17", "C18/a": "C18", "C18/b": "C18", "C19/a": "C19 C13", "C19/b": "C19"}
 items = []
 for d in sorted(glob.glob("/verif/seeded/*/")):
     name = os.path.basename(d.rstrip("/"))
-    if not os.path.exists(d + "meta.json") or re.search(r"-3", name):
-        continue          # round 3 is taken from the table below
+    if not os.path.exists(d + "meta.json"):
+        continue
     meta = json.load(open(d + "meta.json"))
     prop = name.split("-")[0]
     det = meta.get("detected_by") or ""
@@ -30,10 +24,6 @@ for d in sorted(glob.glob("/verif/seeded/*/")):
             pf = d + alt
             break
     items.append((name, pf, checks))
-if os.path.isdir("/tmp/wt3/keep"):
-    for k, v in sorted(R3.items()):
-        name = k.replace("/", "-3")
-        items.append((name, "/tmp/wt3/keep/%s/patch.diff" % k, v.split()))
 out = open("/tmp/seed_matrix.txt", "a")
 for name, pf, checks in items:
     if pat and not re.search(pat, name):
